@@ -1,0 +1,59 @@
+//go:build verif
+
+// Contracts for property C02 (permutation slice): the exact stage of the orientation test sorts its three
+// arguments and multiplies the sign of the sorted triple by the sign of the sorting permutation, so for
+// pairwise distinct points its answer is unchanged by rotating the arguments and negated by swapping two
+// of them, whatever the exact determinant and the symbolic perturbation of the sorted triple are (both
+// used as uninterpreted deterministic functions). The dispatcher returns zero exactly when two arguments
+// are equal, provided the exact stage never returns zero. That the floating-point stages (triageSign,
+// stableSign) agree with the exact sign, and the perturbation table itself, are numerical/combinatorial
+// facts that are NOT decided. Exact IEEE comparisons (fpcmp). Comment-only; build tag verif.
+
+package s2
+
+//@ import "github.com/golang/geo/r3"
+
+//@ property C02
+
+//@ func symbolicallyPerturbedSign(a, b, c, bCrossC r3.PreciseVector) Direction
+//@   assumed "simulation-of-simplicity tie-break on the sorted triple: a deterministic function of its arguments, never zero (13-case table, not decided)"
+//@   pure
+//@   ensures result == 1 || result == -1
+
+//@ func stableSign(a, b, c Point) Direction
+//@   assumed "numerically stable determinant sign (floating point): deterministic, in {-1,0,1}; its agreement with the exact sign is not decided"
+//@   pure
+//@   ensures result == -1 || result == 0 || result == 1
+
+//@ spec func vcNoNaN3(a, b, c Point) bool = vcNoNaNPt(a) && vcNoNaNPt(b) && vcNoNaNPt(c)
+// pairwise distinct in the lexicographic order the exact stage sorts by (distinguishes everything except -0/+0)
+//@ spec func vcDistinct3(a, b, c Point) bool = a.Cmp(b.Vector) != 0 && b.Cmp(c.Vector) != 0 && a.Cmp(c.Vector) != 0
+
+// the exact stage is alternating: invariant under rotation, negated by each of the three transpositions
+// (one lemma per generator so that each query evaluates the sorting network twice only)
+//@ lemma exactSignRotate(a Point, b Point, c Point)
+//@   fpcmp
+//@   timeout 120
+//@   requires vcNoNaN3(a, b, c) && vcDistinct3(a, b, c)
+//@   ensures [rotate] exactSign(a, b, c, true) == exactSign(b, c, a, true)
+
+//@ lemma exactSignSwap(a Point, b Point, c Point)
+//@   fpcmp
+//@   timeout 120
+//@   requires vcNoNaN3(a, b, c) && vcDistinct3(a, b, c)
+//@   ensures [swap] exactSign(a, b, c, true) == -exactSign(b, a, c, true)
+
+// with perturbation the exact stage never answers zero
+//@ lemma exactSignNonZero(a Point, b Point, c Point)
+//@   fpcmp
+//@   requires vcNoNaN3(a, b, c)
+//@   ensures [non-zero] exactSign(a, b, c, true) == 1 || exactSign(a, b, c, true) == -1
+
+// the expensive stage answers zero exactly when two arguments are equal
+//@ func expensiveSign(a, b, c Point) Direction
+//@   fpcmp
+//@   requires vcNoNaN3(a, b, c)
+//@   ensures [zero-iff-repeated] (result == 0) == (a == b || b == c || c == a)
+//@   ensures [range] result == -1 || result == 0 || result == 1
+// numerical: whenever the fast stage decides, it agrees with this stage, i.e. this stage is the oracle's value (used by C03)
+//@   ensures [trusted.is-the-oracle-value] result == RobustSign(a, b, c)
